@@ -344,6 +344,11 @@ func (e *Engine) contractWrites(c *Contract, ws *writeSet, sig *types.Signature,
 				}
 				ws.keys[k] = true
 			}
+		case m == "lrucaches":
+			lruDeclare()
+			for _, k := range lruKeys {
+				ws.keys[k] = true
+			}
 		case m == "ghosts" || strings.HasPrefix(m, "ghosts except "):
 			for _, name := range e.ghostNames(m) {
 				ws.keys["G:"+name] = true
@@ -544,6 +549,10 @@ func (e *Engine) loopEnter(fr *Frame, st *State, l *Loop) {
 		if mi := fr.iters[it]; mi != nil {
 			old := st.cells[mi.cell]
 			st.cells[mi.cell] = scalar(Fresh("visited", old.T.sort))
+			if !mi.isStr {
+				st.cells[mi.ncell] = scalar(Fresh("nvisited", SInt))
+				st.assume(Ge(st.cells[mi.ncell].T, IntLit(0)))
+			}
 			if mi.isStr {
 				st.assume(Ge(st.cells[mi.cell].T, IntLit(0)))
 			}
